@@ -1,7 +1,8 @@
 """C06 - acknowledged messaging delivers each message exactly once despite loss or duplicates."""
 from checks._simple import run_simple
 
-PROVED_TARGETS = []
+PROVED_TARGETS = ["cascade.executor.comms:Listener._recv_one", "cascade.executor.comms:ReliableSender.send",
+                  "cascade.executor.comms:ReliableSender.ack", "cascade.executor.comms:ReliableSender.maybe_retry"]
 
 
 def run(tier, seed):
